@@ -95,6 +95,9 @@ pub fn order_binop_folded() { binop_order(true); kani::cover!(true); }
 fn seq_order(kind: u8, fold: bool) {
     declare_levels(match kind { 0 => 1 << crate::instruction::verif_gate::K_ARRAY, 1 => 1 << crate::instruction::verif_gate::K_TUPLE, _ => 1 << crate::instruction::verif_gate::K_STRUCT }, 0, KB, opbit(BinOperator::AssignAdd));
     crate::variable::verif_valgate::stub_element_type(true); // the stored element type is not the subject here
+    // struct literals: every map of the run iterates in REVERSED insertion order (a concrete policy: the symbolic one
+    // ran out of memory) - an implementation that evaluated the fields in map order would run them right to left
+    if kind == 2 { crate::verif_model::set_order(1); }
     let (a0, d1, d2): (i64, i64, i64) = (kani::any(), kani::any(), kani::any());
     let acc = new_cell(Type::Int, Variable::Int(a0));
     let elems: Arc<[InstructionWithStr]> = Arc::from(crate::vv![iws(eff(&acc, d1)), iws(eff(&acc, d2))]);
